@@ -8,6 +8,7 @@ package main
 // files really exist under those names.
 
 import (
+	"regexp"
 	"bytes"
 	"encoding/json"
 	"fmt"
@@ -16,6 +17,8 @@ import (
 	"strings"
 	"unicode/utf16"
 	"unicode/utf8"
+
+	"github.com/martian-lang/martian/martian/syntax"
 )
 
 // vdrEscString marshals as a JSON string in a chosen spelling.
@@ -133,5 +136,95 @@ func (v *vdrRun) escapeNames(job *TAJob, outs map[string]interface{}) {
 	// the encoder must accept what we produce
 	if _, err := json.Marshal(outs); err != nil {
 		v.hist("esc-marshal-error")
+	}
+}
+
+var reForkIdx = regexp.MustCompile(`\.fork(\d+)`)
+
+// moreShapes: (a) outputs spelled uncleanly — a directory with a trailing
+// separator, a doubled separator or a `/./` inside the path (all accepted by
+// lstat); (b) a fork other than the first of a statically forked stage with a
+// `retain` returns null for the retained outputs (the forks prune their
+// bookkeeping independently); (c) an output nobody binds is a string of more
+// than 2 MiB (the fork's _outs exceeds the small read limit of the metadata
+// reader, which matters when the bookkeeping is rebuilt from disk after a
+// restart).
+func (v *vdrRun) moreShapes(job *TAJob, stage *syntax.Stage, params []*syntax.OutParam, outs map[string]interface{}) {
+	rng := rand.New(rand.NewSource(int64(hash64("vdr-shapes", job.Key))))
+	// (b)
+	if stage.Retain != nil && len(stage.Retain.Params) > 0 && job.ShellName != "split" {
+		if m := reForkIdx.FindStringSubmatch(job.Fqname); m != nil && m[1] != "0" && m[1] == "1" {
+			for _, rp := range stage.Retain.Params {
+				if _, ok := outs[rp.Id]; ok {
+					outs[rp.Id] = nil
+					v.hist("shape-retained-output-null-in-one-static-fork")
+				}
+			}
+		}
+	}
+	// (c)
+	node := job.Fqname
+	if i := strings.Index(node, ".fork"); i > 0 {
+		node = node[:i]
+	}
+	if init, ok := v.initView[node]; ok && !(job.ShellName == "main" && stage.Split) {
+		for _, p := range params {
+			if p.Tname.Tname != syntax.KindString || p.Tname.ArrayDim != 0 || p.Tname.MapDim != 0 {
+				continue
+			}
+			if _, bound := init.FileArgs[p.Id]; bound {
+				continue
+			}
+			if _, ok := outs[p.Id].(string); ok && hash64("vdr-big", job.Key, p.Id)%3 == 0 {
+				outs[p.Id] = strings.Repeat("blob0123456789abcdef", 120000) // 2.4 MB
+				v.hist("shape-outs-larger-than-2MiB")
+			}
+		}
+	}
+	// (a)
+	prefix := job.FilesPath + "/"
+	var walk func(x interface{}) interface{}
+	walk = func(x interface{}) interface{} {
+		switch t := x.(type) {
+		case string:
+			if !strings.HasPrefix(t, prefix) || rng.Intn(6) != 0 {
+				return t
+			}
+			st, err := os.Lstat(t)
+			if err != nil || st.Mode()&os.ModeSymlink != 0 || strings.Contains(t[len(prefix):], "_o") && false {
+				return t
+			}
+			i := strings.LastIndex(t, "/")
+			switch k := rng.Intn(3); {
+			case k <= 1 && st.IsDir():
+				v.hist("shape-output-spelled-with-trailing-separator")
+				if rng.Intn(3) == 0 {
+					return t + "//"
+				}
+				return t + "/"
+			case k == 1:
+				v.hist("shape-output-spelled-with-doubled-separator")
+				return t[:i] + "//" + t[i+1:]
+			default:
+				v.hist("shape-output-spelled-with-dot-component")
+				return t[:i] + "/./" + t[i+1:]
+			}
+		case []interface{}:
+			for i := range t {
+				t[i] = walk(t[i])
+			}
+			return t
+		case map[string]interface{}:
+			for k := range t {
+				t[k] = walk(t[k])
+			}
+			return t
+		}
+		return x
+	}
+	if vdrAliasFrom == "" { // (a linked root has its own respelling of the paths)
+		for k := range outs {
+			outs[k] = walk(outs[k])
+		}
 	}
 }
